@@ -47,4 +47,14 @@ def parallel_delete_single_refusal(case_text, detail):
     return d.get("kind") == "parfail" and d.get("only") == "1"
 
 
-FEATURES = {f.__name__: f for f in [head_side_crash_inside_delete, dense_blocks_estimate, network_head_above_local_head, parallel_delete_single_refusal]}
+def delete_fault_between_the_two_keys(case_text, detail):
+    """C08/F23: a datastore Delete fails on the SECOND key (the height-index entry) of a header inside DeleteRange:
+    that header is half deleted and the Tail pointer cannot be moved onto it."""
+    d = _kv(case_text)
+    try:
+        return d.get("kind") == "delfault" and int(d["failat"]) % 2 == 0
+    except (KeyError, ValueError):
+        return False
+
+
+FEATURES = {f.__name__: f for f in [head_side_crash_inside_delete, dense_blocks_estimate, network_head_above_local_head, parallel_delete_single_refusal, delete_fault_between_the_two_keys]}
